@@ -375,7 +375,11 @@ func TestC04Faults(t *testing.T) {
 	// every kind of mutating call once, deterministically, before the generated cases
 	rec := h.NewRec("C04", "faults-per-kind", "one fixed (pre-state, call) per kind of mutating call (create-db, put-new, put-version, activate, delete-version, delete) with the complete fault plan of its traced window; distinct by kind; every kind is non-trivial when faults fired")
 	base := []dbx.Op{{Kind: "put", Name: "a", Val: []byte("x")}, {Kind: "put", Name: "a", Val: []byte("y")}, {Kind: "put", Name: "b", Val: []byte("z")}}
+	sh0, _ := h.Shard()
 	for _, k := range c04Kinds {
+		if sh0 != 0 {
+			break
+		}
 		c := FaultCase{Pre: base, Kind: k, Val: []byte("fixed")}
 		v, info := runC04(t, c)
 		rec.Case(k, info, map[string]any{"kind": k, "plan": lastPlan.Load()})
